@@ -154,3 +154,21 @@ def show_loops(files, defines=(), repo=None):
     cmd = ["cbmc"] + list(files) + ["--show-loops"] + inc_flags(repo) + ["-I" + os.path.join(VERIF, "cbmc")] + BASE_DEFS + list(defines)
     p = subprocess.run(cmd, capture_output=True, text=True)
     return p.stdout
+
+
+def build_gb(files, out, defines=(), repo=None, havoc_undefined=None):
+    """goto-cc the harness with the build's flags; optionally give every still-undefined function matching
+    the regex a body that havocs what its pointer parameters point to and returns an arbitrary value."""
+    repo = repo or REPO
+    cmd = ["goto-cc"] + inc_flags(repo) + ["-I" + os.path.join(VERIF, "cbmc")] + BASE_DEFS + ["-DNO_COMPAT_ISAL_CRYPTO_API_2_24"] + list(defines) + list(files) + ["-o", out]
+    p = subprocess.run(cmd, capture_output=True, text=True)
+    if p.returncode != 0:
+        raise RuntimeError("goto-cc failed: " + (p.stdout + p.stderr)[-1500:])
+    if havoc_undefined:
+        out2 = out + ".b.gb"
+        p = subprocess.run(["goto-instrument", "--generate-function-body", havoc_undefined, "--generate-function-body-options", "havoc,params:.*", out, out2],
+                           capture_output=True, text=True)
+        if p.returncode != 0:
+            raise RuntimeError("goto-instrument failed: " + (p.stdout + p.stderr)[-1500:])
+        return out2
+    return out
